@@ -18,7 +18,7 @@ CFG = {
     "rule": "exhaustive: all histories of length <=2 (quick) / <=3 (thorough) over one layer name and a 27-operation alphabet (cached x metadata "
             "type x callback decisions incl. failure, uncached, write metadata/env/SBOM/exec.d/file, restore); directed: populate-restore-request "
             "chains for every flag combination and callback decision; sampled: 3 000 (quick, <=14 ops) / 50 000 (thorough, <=40 ops) histories "
-            "over three layer names incl. broken metadata files and missing exec.d sources; full snapshot of the layers directory after every step. "
+            "over three layer names that share a dotted prefix (a, a.tools, a.sbom), directed two-layer histories on such names, incl. broken metadata files and missing exec.d sources; full snapshot of the layers directory after every step. "
             "non-trivial = a restore followed by a request on a layer that carried env, exec.d or SBOM data; distinct = distinct history",
     "trusted_base": ["Spec/LayerSpec.lean is my reading of C01 (classification of the pre-state, decision table, restored/empty clauses)",
                      "the lifecycle restore between builds is simulated by the harness exactly as the property text fixes it"],
